@@ -1097,3 +1097,60 @@ Proof. intros Hc Hwf Hinv Hk Hex H.
   pose proof (coords_all_impl prop_exact prop_finite g m prop_exact_finite Hex) as Hfin.
   split; [eapply stored_inv_md; eauto|]. destruct (stored_valid g m m' Hinv Hfin H) as [H1 [H2 H3]].
   split; [exact H1|]. split; [exact H2|]. intros gv st. apply H3. Qed.
+
+(* ================================================================== the statements of props/C10.v *)
+(* exactly one entry per stored property (the caller names no absent one), and every entry is the caller's with
+   dtype / varlength replaced by those of the written data -- identifier, unit, name, description kept -- or a fresh one *)
+Theorem full_props g m m' n e :
+  wf_input g (abs I0 m) n e -> stored_md g m = Ok m' ->
+  (forall k, In k (map fst (Meta.md_node_props m')) <-> In k (names_of (nps_of g m))) /\
+  (forall k, In k (map fst (Meta.md_edge_props m')) <-> In k (names_of (w_eprops g))) /\
+  (forall name p pm, In (name, p) (match nps_of g m with Some ps => ps | None => [] end) ->
+     create_props_metadata name p = Ok pm ->
+     alookup name (Meta.md_node_props m') =
+     Some (match alookup name (Meta.md_node_props m) with
+           | Some old => Meta.mkPM (Meta.pm_identifier old) (dtype_name (Tree.pm_dtype pm)) (Tree.pm_varlength pm)
+                                   (Meta.pm_unit old) (Meta.pm_name old) (Meta.pm_description old)
+           | None => Meta.mkPM name (dtype_name (Tree.pm_dtype pm)) (Tree.pm_varlength pm) None None None
+           end)) /\
+  (forall name p pm, In (name, p) (match w_eprops g with Some ps => ps | None => [] end) ->
+     create_props_metadata name p = Ok pm ->
+     alookup name (Meta.md_edge_props m') =
+     Some (match alookup name (Meta.md_edge_props m) with
+           | Some old => Meta.mkPM (Meta.pm_identifier old) (dtype_name (Tree.pm_dtype pm)) (Tree.pm_varlength pm)
+                                   (Meta.pm_unit old) (Meta.pm_name old) (Meta.pm_description old)
+           | None => Meta.mkPM name (dtype_name (Tree.pm_dtype pm)) (Tree.pm_varlength pm) None None None
+           end)).
+Proof. intros Hwf H.
+  pose proof (wi_nprops _ _ _ _ Hwf) as Wn. pose proof (wi_eprops _ _ _ _ Hwf) as We.
+  pose proof (wi_nstale _ _ _ _ Hwf) as Sn. pose proof (wi_estale _ _ _ _ Hwf) as Se.
+  rewrite backfill_abs in Wn, Sn. fold (nps_of g m) in Wn, Sn. cbn [abs md_nprops md_eprops] in Sn, Se.
+  unfold abs_dict in Sn, Se. rewrite akeys_map_snd in Sn, Se.
+  assert (Hk : forall n0 ops, wf_props n0 ops -> akeys (metas_of ops) = names_of ops /\ NoDup (names_of ops)).
+  { intros n0 ops Hw. destruct ops as [ps|]; [|split; [reflexivity | constructor]]. destruct (Hw ps eq_refl) as [Hnd HF].
+    split; [|exact Hnd]. cbn. apply props_meta_keys. eapply Forall_impl; [|exact HF]. cbn; tauto. }
+  destruct (Hk _ _ Wn) as [Kn Nn]. destruct (Hk _ _ We) as [Ke Ne].
+  destruct (stored_keys g m m' H) as [K1 K2]. destruct (stored_entry g m m' H) as [E1 E2].
+  split; [|split; [|split]].
+  - intros k. rewrite K1, Kn. split; [intros [Hc|Hc]; [apply Sn; exact Hc | exact Hc] | intros Hc; right; exact Hc].
+  - intros k. rewrite K2, Ke. split; [intros [Hc|Hc]; [apply Se; exact Hc | exact Hc] | intros Hc; right; exact Hc].
+  - intros name p pm Hin Hc. rewrite (E1 Nn name p pm Hin Hc). reflexivity.
+  - intros name p pm Hin Hc. rewrite (E2 Ne name p pm Hin Hc). reflexivity. Qed.
+
+(* every caller field that does not depend on the data, one by one *)
+Theorem full_passthrough g m m' :
+  stored_md g m = Ok m' ->
+  Meta.md_version m' = Meta.md_version m /\ Meta.md_directed m' = Meta.md_directed m /\
+  Meta.md_sphere m' = Meta.md_sphere m /\ Meta.md_ellipsoid m' = Meta.md_ellipsoid m /\
+  Meta.md_track m' = Meta.md_track m /\ Meta.md_related m' = Meta.md_related m /\
+  Meta.md_hints m' = Meta.md_hints m /\ Meta.md_extra m' = Meta.md_extra m /\
+  match Meta.md_axes m with
+  | None => Meta.md_axes m' = None
+  | Some axes => exists axes', Meta.md_axes m' = Some axes' /\ Forall2 axis_kept axes axes'
+  end /\
+  (forall k old, In (k, old) (Meta.md_node_props m) -> exists new, In (k, new) (Meta.md_node_props m') /\ entry_kept old new) /\
+  (forall k old, In (k, old) (Meta.md_edge_props m) -> exists new, In (k, new) (Meta.md_edge_props m') /\ entry_kept old new).
+Proof. intros H. destruct (stored_fields g m m' H) as [H1 [H2 [H3 [H4 [H5 [H6 [H7 [H8 [_ [_ Hax]]]]]]]]]].
+  destruct (stored_entries_kept g m m' H) as [Kn Ke]. repeat (split; [assumption|]).
+  split; [|split; assumption]. destruct (Meta.md_axes m) as [axes|]; [|exact Hax].
+  destruct Hax as [axes' [Ha [Hk _]]]. exists axes'. split; assumption. Qed.
